@@ -4,7 +4,10 @@ package main
 go2lean, twenty-fifth front end: main.go — `printRaw`, the goroutine that polls the terminal size,
 the goroutine that runs the subcommand, the key loop and the start-up sequence of `main`.  Output:
 lean/Generated/GoMain.lean, namespace GenMain; `Props/Gen16m.lean` proves it equal to the model
-(`Model/Main.lean`), `Props/GenT16m.lean` carries C16 and C01 over to it.
+(`Model/Main.lean`), `Props/GenT16m.lean` carries C16 over to it, `Props/GenT01m.lean` C01.  From
+ui/ui.go: `(*State).SetWidthHeight` (between `Lock()` and the deferred `Unlock()`: `if`, `return`,
+`s.f = e` on the fields `Generated/GoView.lean` carries, `s.output(s.view())`) on `GenView.State`, and
+the `width` / `height` of the struct `NewState` builds.
 
 What the program does to the outside world (and to the interface state, through the exported
 methods of `ui.State`) is recorded as a list of actions `Go.Term.Act` (Model/GoTerm.lean) in
